@@ -428,7 +428,9 @@ def lib_judge(case, out):
                 # the reference run its tick budget was computed from: only judged when it took no more than those)
                 sig, doc["expected"] = "track-never-ends", "the drained track leaves Timeline.tracks once its last note has ended"
                 doc["observed"] = "still scheduled after %d ticks (%d note_on, %d note_off)" % (t["ticks"], len(t["ons"]), len(t["offs"]))
-            elif len(t["ons"]) != len(t["offs"]):
+            elif t["ended"] and len(t["ons"]) != len(t["offs"]):
+                # (only of a track that has ended: one that used up a tick budget computed from another draw of an unseeded
+                # pattern may rightly still hold its last note - false alarm of the thorough tier at seed 3 before this guard)
                 sig, doc["expected"], doc["observed"] = "track-note-offs", "one note_off per note_on", "%d note_on, %d note_off" % (len(t["ons"]), len(t["offs"]))
             if sig:
                 bad.append(({"kind": sig, "class": cls, "stream": "library"}, doc))
@@ -1416,6 +1418,7 @@ def check_clocked(run):
             if vals is not None and "stop" not in inner[1:]:
                 vals = None
         # -- drained track: the stream ends while its last note still sounds; the track must end, with the notes of the values
+        inner_len = inner[1:].index("stop") if inner and "stop" in inner[1:] else None      # values before the inner pattern ends
         if c["track"] is not None and o.get("track") is not None:
             t = o["track"]
             stats["tracks"] += 1
@@ -1427,6 +1430,12 @@ def check_clocked(run):
             bad = None
             if t.get("error") and playable:
                 bad = "the timeline raised %s" % t["error"]
+            elif not t.get("error") and not t["ended"] and inner_len is None:
+                # the inner pattern, polled on its own, never ended (PArpeggiator([]) yields rests for ever): nothing says the
+                # track has to end.  (False alarm of the thorough tier at seed 3 before this guard.)
+                run.dist("clocked.track.inner-never-ends (not judged for ending)")
+            elif not t.get("error") and not t["ended"] and inner_len > 12:
+                run.dist("clocked.track.inner-longer-than-the-budget-assumes (not judged for ending)")
             elif not t.get("error") and not t["ended"]:
                 bad = "the track is still on the timeline after %d ticks (%d note-ons)" % (t["ticks"], len(t["ons"]))
             elif not t.get("error") and want is not None and playable and len(t["ons"]) != want:
